@@ -82,6 +82,29 @@ fn single_table_classes(p_rows: &[Vec<Val>]) -> Vec<QClass> {
             ],
         });
     }
+    // literals with a fractional part against the integer key: an index range bound and a filter must agree on
+    // where 2.5 falls between the keys 2 and 3 (and -0.5 below every key)
+    for (lit, x) in [("2.5", 2.5f64), ("1.5", 1.5), ("0.5", 0.5), ("-0.5", -0.5)] {
+        for (name, flipped, f) in [
+            ("=", "=", (|k: f64, x: f64| k == x) as fn(f64, f64) -> bool),
+            (">", "<", |k, x| k > x),
+            (">=", "<=", |k, x| k >= x),
+            ("<", ">", |k, x| k < x),
+            ("<=", ">=", |k, x| k <= x),
+        ] {
+            let expect: Vec<Vec<Val>> = p_rows.iter().filter(|r| matches!(r[0], Val::Int(k) if f(k as f64, x))).cloned().collect();
+            out.push(QClass {
+                name: format!("k {name} {lit}"),
+                expect,
+                variants: vec![
+                    format!("SELECT * FROM p WHERE k {name} {lit}"),
+                    format!("SELECT * FROM p WHERE k + 0 {name} {lit}"),
+                    format!("SELECT * FROM p WHERE {lit} {flipped} k"),
+                    format!("SELECT * FROM p WHERE k {name} {lit} AND v = v"),
+                ],
+            });
+        }
+    }
     let e = E::Between(Box::new(pk()), Box::new(int(2)), Box::new(int(3)), false);
     out.push(QClass {
         name: "k BETWEEN 2 AND 3".into(),
